@@ -268,6 +268,24 @@ impl Harness for C10 {
         props.push(p.unwrap());
       }
     }
+    // ---- registrations: a plain Subject holds exactly the observers that are still attached (accessor
+    // appended to the instrumented copy only; usize::MAX = not available in this tree)
+    #[cfg(feature = "instrumented")]
+    if let AnySubject::S(s) = &sbj {
+      let n = s.vf_observer_count();
+      let any_free = robs.iter().flatten().any(|r| r.free);
+      let expect = robs.iter().flatten().filter(|r| r.live).count();
+      if n != usize::MAX && !any_free && n != expect {
+        return Verdict {
+          prop: None,
+          structural: Some(format!("the Subject holds {} observers, {} are attached [{}] history=[{}]", n, expect, sig, trace.join(" "))),
+          sample: String::new(),
+          signature: format!("{};role=observer-count", sig),
+          nontrivial: true,
+          detail: vec![],
+        };
+      }
+    }
     // ---- ownership: the subject holds no observer after a terminal / after it unsubscribed
     let mut gone: Vec<usize> = ended_obs.clone();
     if terminal.is_some() {
